@@ -124,6 +124,30 @@ func textEq(a, b Text) (*T, bool) {
 			return tTrue, true
 		}
 	}
+	// One text is the other followed by more fragments of which at least one is a
+	// non-empty literal or a number: the lengths differ, the strings differ.
+	{
+		short, long := a, b
+		if len(short.Frags) > len(long.Frags) {
+			short, long = long, short
+		}
+		if len(short.Frags) < len(long.Frags) {
+			prefix := true
+			for i := range short.Frags {
+				x, y := short.Frags[i], long.Frags[i]
+				if x.Kind != y.Kind || x.Lit != y.Lit || x.Atom != y.Atom || (x.Kind == FNum && !termEq(x.Term, y.Term)) {
+					prefix = false
+				}
+			}
+			if prefix {
+				for _, f := range long.Frags[len(short.Frags):] {
+					if (f.Kind == FLit && f.Lit != "") || f.Kind == FNum {
+						return tFalse, true
+					}
+				}
+			}
+		}
+	}
 	// An atom compared with a concrete non-empty string: an uninterpreted fact
 	// (false outright when the atom has a declared finite domain without it).
 	if len(a.Frags) == 1 && a.Frags[0].Kind == FAtom && bok {
